@@ -126,8 +126,23 @@ def setup():
         def output_data_type(cls):
             return tu.FloatDataCollection
 
+    class VerifTupleKeysSource(DataSource):
+        """A source that names the context keys it creates in a tuple (harness side)."""
+
+        @classmethod
+        def _get_data(cls, value: float = 1.0):
+            return tu.FloatDataType(value)
+
+        @classmethod
+        def output_data_type(cls):
+            return tu.FloatDataType
+
+        @classmethod
+        def get_created_keys(cls):
+            return ("a", "b")
+
     for c in (VerifAltCollection, VerifKeyedPayloadSource, VerifCtxWriteOperation, VerifUndocSource, VerifUndocProbe, VerifUndocSink,
-              VerifStoreSourceSink, VerifTypedProbe):
+              VerifStoreSourceSink, VerifTypedProbe, VerifTupleKeysSource):
         ProcessorRegistry.register_processor(c.__name__, c)
     _state["ready"] = True
     return _state
@@ -159,6 +174,17 @@ def typed_probe_oracle(ck):
                 for sig, what in oracle(cfg, o):
                     ck.fail_input(sig + ":probe-declaring-a-result-type", what + " [a DataProbe that declares output_data_type]",
                                   {"cfg": short(cfg), "via_pipeline": via, "kind": "typed-probe"})
+    # a source that returns its created keys as a tuple: the class itself is contract-clean, so must the node class be
+    from semantiva.registry import resolve_symbol
+    tk = base_facts("VerifTupleKeysSource")
+    if not [d for d in diags_of(resolve_symbol("VerifTupleKeysSource")) if d[1] == "error"]:
+        for via in (False, True):
+            o = observe(tk, via)
+            n += 1
+            if o["ok"]:
+                for sig, what in oracle(tk, o):
+                    ck.fail_input(sig + ":created-keys-given-as-a-tuple", what + " [a DataSource whose get_created_keys() returns a tuple]",
+                                  {"cfg": short(tk), "via_pipeline": via, "kind": "tuple-keys-source"})
     # a data-IO class with two roles (an in-memory store that can be read and written; DataSource comes first in its bases and in
     # its component_type): node class and adapter must both treat it as the source it says it is
     dual = base_facts("VerifStoreSourceSink")
